@@ -329,8 +329,14 @@ func (cl *cluster) serve(c *nconn) {
 }
 
 // runCluster runs one schedule and returns the per-node seal histories.
-func runCluster(r *vf.Run, id int, sch schedule, N, C int, blockMs uint32, wall time.Duration, scratch string) {
-	tag := fmt.Sprintf("c34-%d-%d", vf.Seed(), id)
+// runCluster reports false when the cluster never came up (nodes did not connect or did not seal two
+// blocks in the warm-up: seen on an overloaded machine) and attempt is not the last one: nothing of
+// that attempt is counted and the caller runs the schedule again.  On the last attempt the run is
+// inconclusive.
+func runCluster(r *vf.Run, id, attempt int, sch schedule, N, C int, blockMs uint32, wall time.Duration, scratch string) bool {
+	const lastAttempt = 2
+	abort := false
+	tag := fmt.Sprintf("c34-%d-%d-%d", vf.Seed(), id, attempt)
 	dir := filepath.Join(scratch, tag)
 	os.MkdirAll(dir, 0o755)
 	cc := clusterCfg{Tag: tag, N: N, C: C, BlockMs: blockMs, HashMs: blockMs, SockPath: filepath.Join(dir, "hub.sock")}
@@ -397,7 +403,11 @@ func runCluster(r *vf.Run, id int, sch schedule, N, C int, blockMs uint32, wall 
 	select {
 	case <-acceptDone:
 	case <-time.After(240 * time.Second):
-		r.Inconclusive(fmt.Sprintf("cluster %d: nodes did not all connect", id))
+		if attempt < lastAttempt {
+			abort = true
+		} else {
+			r.Inconclusive(fmt.Sprintf("cluster %d: nodes did not all connect", id))
+		}
 	}
 	cl.mu.Lock()
 	cl.stats["connect_ms"] = time.Since(t0).Milliseconds()
@@ -409,14 +419,23 @@ func runCluster(r *vf.Run, id int, sch schedule, N, C int, blockMs uint32, wall 
 		go cl.serve(c)
 	}
 	// warm-up until the cluster is up (bounded), then the hostile phase lasts `wall`
-	for i := 0; i < 1200 && !cl.hostile.Load(); i++ {
+	for i := 0; i < 1200*(attempt+1) && !cl.hostile.Load() && !abort; i++ {
 		time.Sleep(100 * time.Millisecond)
 	}
 	// VBFT servers turn "Synced" (and only then act as leader) 10 s after they were sync-ready: give
 	// the cluster that time, otherwise every height whose leader is honest waits for the 2nd proposer
-	time.Sleep(12 * time.Second)
+	if !abort {
+		time.Sleep(12 * time.Second)
+	}
 	if !cl.hostile.Load() {
-		r.Inconclusive(fmt.Sprintf("cluster %d (%s): never sealed 2 blocks during warm-up", id, sch.Name))
+		if attempt < lastAttempt {
+			abort = true
+		} else {
+			r.Inconclusive(fmt.Sprintf("cluster %d (%s): never sealed 2 blocks during warm-up", id, sch.Name))
+		}
+	}
+	if abort {
+		wall = 0
 	}
 	// hostile part: fault windows alternate with calm windows (intermittent faults let the cluster
 	// make progress under the new conditions); audiences / partitions are re-drawn at every window.
@@ -450,6 +469,11 @@ func runCluster(r *vf.Run, id int, sch schedule, N, C int, blockMs uint32, wall 
 		for _, p := range procs {
 			p.Process.Kill()
 		}
+	}
+	if abort {
+		r.Count("clusters_that_never_came_up_and_were_run_again")
+		os.RemoveAll(dir)
+		return false
 	}
 	// ---------------- offline agreement checker over the honest nodes' histories
 	cl.mu.Lock()
@@ -533,6 +557,7 @@ func runCluster(r *vf.Run, id int, sch schedule, N, C int, blockMs uint32, wall 
 	if os.Getenv("VERIF_C34_KEEPLOG") == "" {
 		os.RemoveAll(dir)
 	}
+	return true
 }
 
 func main() {
@@ -603,9 +628,16 @@ func main() {
 		jobs = js
 	}
 	par := 4
+	again := make([]bool, len(jobs))
 	vf.Parallel(len(jobs), par, func(i int) {
-		runCluster(r, i, jobs[i].sch, jobs[i].N, jobs[i].C, blockMs, wall, scratch)
+		again[i] = !runCluster(r, i, 0, jobs[i].sch, jobs[i].N, jobs[i].C, blockMs, wall, scratch)
 	})
+	// schedules whose cluster never came up are run again one at a time (less load), twice at most
+	for i := range jobs {
+		for attempt := 1; again[i] && attempt <= 2; attempt++ {
+			again[i] = !runCluster(r, i, attempt, jobs[i].sch, jobs[i].N, jobs[i].C, blockMs, wall, scratch)
+		}
+	}
 	r.Require("heights_compared_between_>=2_honest_nodes", 12)
 	r.Require("clusters_run/calm", 1)
 	r.Require("clusters_run/twins", 1)
